@@ -290,6 +290,11 @@ def decide(prop, a, seed, results, fns, abstract, t0):
     wall = round(time.time() - t0, 2)
 
     if a.update_ledger and not scratch:
+        old_l = ledger_all.get(prop, {})
+        for k_, names in sorted(old_l.items()):
+            gone = sorted(set(names) - set(new_ledger.get(k_, [])))
+            if gone:
+                print("LEDGER: %s no longer generates %s" % (k_, ", ".join(gone)[:300]))
         ledger_all[prop] = new_ledger
         with open(os.path.join(ROOT, "LEDGER.json"), "w") as fh:
             json.dump(ledger_all, fh, indent=1, sort_keys=True)
